@@ -187,6 +187,8 @@ def _jobs(tier):
     if tier == 'quick':
         add(n=3, t=2, kind='T1', side='long', exch='futures')
         add(n=3, t=1, kind='T7', side='long', exch='futures')
+        add(n=3, t=1, kind='T7', side='long', exch='futures', warm=2)  # injected warm-up candles (the store is not empty at the first minute)
+        add(n=3, t=1, kind='T1', side='long', exch='futures', fast=True, warm=2)
         add(n=6, t=3, kind='T1', side='long', exch='futures', tf='3m', fast=True, sym=[2, 3])  # the first replaced minute may gap
     else:
         for side in ('long', 'short'):
